@@ -186,7 +186,9 @@ class RCA_Supervised(RCA):
                     ' version 0.6.3 and will be removed in 0.7.0'
                     '', FutureWarning)
       n_chunks = num_chunks
-    self.num_chunks = 'deprecated'  # To avoid no_attribute error
+      num_chunks = 'deprecated'
+    # (the object given is stored: sklearn's `clone` checks identity)
+    self.num_chunks = num_chunks
     self.n_chunks = n_chunks
     self.chunk_size = chunk_size
     self.random_state = random_state
